@@ -269,7 +269,7 @@ func genSignedBase(t *rapid.T) SignedBase {
 
 var specC16 = Register(&Spec[SigCase]{
 	Prop: "C16", Name: "debsig",
-	Rule:  "fault enumeration over generated debsig-signed packages (C14 models with stored/gzip/zstd members, role in {origin, maint, archive}, RSA signer from a per-process pool, detached binary signature over debian-binary|control|data in '_gpg<role>'): the untampered package with the signer in the keyring (accept - and after the check the handle still delivers the signed payload, and a repeated check agrees; the same with another signed package of the same layout loaded before and after it and left open); EVERY single-byte XOR 0x01 inside the three signed members (reject); a decoy control.*/data.* member with a different extension (a stored tar carrying 'Package: evil', or a copy) and a same-name duplicate with changed content inserted at EVERY member position, each loaded 64 times (reject); a role that is not present, an unrelated keyring, an empty keyring (reject); a second CheckDebsig on the same handle with an unrelated or empty keyring after a successful first one (the second must fail); EVERY single-byte XOR inside the signature member (must fail or still verify the unmodified content); the signature member replaced by its ASCII-armored form, alone (either outcome), with a foreign/empty keyring and with flipped bytes in each signed member (reject). Oracle: reject => Load or CheckDebsig fails on every repetition; always: if both succeed, the control data exposed equals the signed package's model and the signer is the signing entity. Non-trivial: every faulted case; distinct by (bytes, role, keyring).",
+	Rule:  "fault enumeration over generated debsig-signed packages (C14 models with stored/gzip/zstd members, role in {origin, maint, archive}, RSA signer from a per-process pool, detached binary signature over debian-binary|control|data in '_gpg<role>'): the untampered package with the signer in the keyring (accept - and after the check the handle still delivers the signed payload, and a repeated check agrees; the same with another signed package of the same layout loaded before and after it and left open); EVERY single-byte XOR 0x01 inside the three signed members (reject); a decoy control.*/data.* member with a different extension (a stored tar carrying 'Package: evil', or a copy) and a same-name duplicate with changed content inserted at EVERY member position, each loaded 64 times (reject); a decoy named the GNU way - a '//' name table plus a member '/0' - at every position (must fail or expose the signed content); a role that is not present, an unrelated keyring, an empty keyring (reject); a second CheckDebsig on the same handle with an unrelated or empty keyring after a successful first one (the second must fail); EVERY single-byte XOR inside the signature member (must fail or still verify the unmodified content); the signature member replaced by its ASCII-armored form, alone (either outcome), with a foreign/empty keyring and with flipped bytes in each signed member (reject). Oracle: reject => Load or CheckDebsig fails on every repetition; always: if both succeed, the control data exposed equals the signed package's model and the signer is the signing entity. Non-trivial: every faulted case; distinct by (bytes, role, keyring).",
 	Check: checkSigCase,
 })
 
@@ -442,6 +442,20 @@ func enumerateSigFaults(b SignedBase, yield func(SigCase) bool) bool {
 		for _, order := range [][2]ArMember{{orig, subst}, {subst, orig}} {
 			swapped := append(append(append([]ArMember{}, ms[:which]...), order[0], order[1]), ms[which+1:]...)
 			if !yield(mk(renderAr(swapped), "reject", fmt.Sprintf("decoy:swap-%s", orig.Name), 64)) {
+				return false
+			}
+		}
+	}
+	// a decoy that only a GNU-ar reader would call control.tar.gz / data.tar: its name column says
+	// "/0" and the name stands in a "//" table member. To this reader those are two members of no
+	// interest - whatever it makes of them, what it exposes has to be what it verified
+	for _, ln := range []struct {
+		table string
+		data  []byte
+	}{{"control.tar.gz/\n", evilGz}, {"control.tar/\n", evilTar}, {"data.tar/\n", emptyTar}} {
+		for pos := 1; pos <= len(members); pos++ {
+			ms := append(append(append([]ArMember{}, members[:pos]...), ArMember{Name: "//", Mode: "", BlankMode: true, BlankM: true, BlankU: true, BlankG: true, Data: []byte(ln.table)}, ArMember{Name: "/0", Mode: "100644", Data: ln.data}), members[pos:]...)
+			if !yield(mk(renderAr(ms), "sigfault", fmt.Sprintf("decoy:gnu-longname-%s@%d", strings.TrimSpace(ln.table), pos), 64)) {
 				return false
 			}
 		}
